@@ -17,7 +17,7 @@
 struct Plain { int64_t v; };
 static var Plain = Cello(Plain);
 
-static char dir[64];
+static char dir[600];
 static void bytes_key(const char* k, const char* s, size_t n) { ev_key(k); ev_s("["); for (size_t i = 0; i < n; i++) { if (i) ev_s(","); ev_i((unsigned char)s[i]); } ev_s("]"); }
 static void raw_int(const char* k, int64_t v) { ev_limbs(k, (uint64_t)v); }
 static void raw_flt(const char* k, double d) { uint64_t u; memcpy(&u, &d, 8); ev_limbs(k, u); }
@@ -28,7 +28,7 @@ static size_t unhex(const char* h, char* out, size_t cap) { size_t n = hc_unhex(
 static int stale_sink;           /* the File sink is write-only and has a failed (caught) read behind it: stdio's error flag is set */
 static var sink_make(int isfile, const char* pre) {
   if (!isfile) return new_raw(String, $S((char*)pre));
-  char p[128]; snprintf(p, sizeof p, "%s/sink", dir);
+  char p[700]; snprintf(p, sizeof p, "%s/sink", dir);
   var f = new_raw(File, $S(p), $S(stale_sink ? "wb" : "w+b"));
   swrite(f, (void*)pre, strlen(pre));
   if (stale_sink) { char c; try { sread(f, &c, 1); } catch (e) { } }
@@ -37,7 +37,7 @@ static var sink_make(int isfile, const char* pre) {
 static size_t sink_read(int isfile, var s, char* out, size_t cap) {
   if (!isfile) { size_t n = strlen(c_str(s)); if (n >= cap) n = cap - 1; memcpy(out, c_str(s), n); out[n] = 0; return n; }
   if (stale_sink) {               /* write-only: read the file through a stream of its own */
-    sflush(s); char p[128]; snprintf(p, sizeof p, "%s/sink", dir);
+    sflush(s); char p[700]; snprintf(p, sizeof p, "%s/sink", dir);
     FILE* g = fopen(p, "rb"); size_t n = g ? fread(out, 1, cap - 1, g) : 0; if (g) fclose(g); out[n] = 0; return n;
   }
   sflush(s); long cur = (long)stell(s);
@@ -84,7 +84,10 @@ int main(int argc, char** argv) {
   FILE* f = fopen(argv[1], "r"); if (!f) { perror(argv[1]); return 9; }
   if (argc > 2) { ev_fd = open(argv[2], O_WRONLY | O_CREAT | O_TRUNC, 0644); if (ev_fd < 0) { perror(argv[2]); return 9; } }
   hc_install(0);
-  snprintf(dir, sizeof dir, "/tmp/cello_hfmt_XXXXXX"); if (!mkdtemp(dir)) return 9;
+  { /* scratch files live next to the event log (the check's private work directory), never directly in /tmp */
+    const char* base = argc > 2 ? argv[2] : "."; const char* sl = strrchr(base, '/');
+    snprintf(dir, sizeof dir, "%.*s/hfmt_XXXXXX", sl ? (int)(sl - base) : 1, sl ? base : ".");
+    if (!mkdtemp(dir)) return 9; }
   while (hc_next(f)) {
     alarm(30);
     if (hc_is(0, "reset")) { if (cur_exec > 0) { ev_begin("end"); ev_end(); } cur_exec++; ev_begin("reset"); ev_end(); continue; }
@@ -212,7 +215,7 @@ int main(int argc, char** argv) {
     }
     if (hc_is(0, "sio")) {
       const char* modes = hc_w[1]; int n = (hc_nw - 2) / 2; if (n > 40) n = 40;
-      char path[160]; snprintf(path, sizeof path, "%s/stdio", dir);
+      char path[700]; snprintf(path, sizeof path, "%s/stdio", dir);
       var vs[40]; int wrote[40]; const char* wexc = ""; char wm[160] = "";
       fflush(stdout); int saved = dup(1);
       if (!freopen(path, "w", stdout)) return 9;
@@ -310,6 +313,6 @@ int main(int argc, char** argv) {
     fprintf(stderr, "unknown op %s\n", hc_w[0]); return 9;
   }
   ev_begin("end"); ev_end(); ev_flush();
-  char p[128]; snprintf(p, sizeof p, "%s/sink", dir); unlink(p); rmdir(dir);
+  char p[700]; snprintf(p, sizeof p, "%s/sink", dir); unlink(p); rmdir(dir);
   return 0;
 }
